@@ -65,6 +65,16 @@ structure T where
   writes : List (Nat × Bool) := []
   deriving Repr, DecidableEq
 
+/-- the synchronous part of an environment event, performed without running the loop -/
+inductive Act where
+  /-- a task that will call `_send_message(msg)` becomes runnable -/
+  | send (sender msg : Nat)
+  /-- `pause_writing()` -/
+  | pause
+  /-- `resume_writing()` -/
+  | resume
+  deriving Repr, DecidableEq
+
 inductive Event where
   | send (sender msg : Nat) (flags : List Bool)
   | pause
@@ -77,6 +87,13 @@ inductive Event where
       anything was written, the transport still holds unsent data and the loss is not delivered
       until it drains / the link drops / somebody aborts) -/
   | gclose (pendingData : Bool)
+  /-- several things happen back to back *without the loop running in between*: new senders
+      become runnable, the transport reports full / drained.  Only afterwards do the tasks run,
+      in the order in which they became runnable (`T.sync` builds that queue): a sender that
+      was already runnable when `resume_writing()` set the event runs BEFORE the writers the
+      event woke (their wake-ups are queued behind it); a `pause_writing()` that follows the
+      resume clears the event before any woken writer has run. -/
+  | batch (acts : List Act) (flags : List Bool)
   deriving Repr, DecidableEq
 
 /-- the transport's send buffer passes the high-water mark: `pause_writing()` (once) -/
@@ -151,6 +168,32 @@ def T.use (t : T) (m : Nat) : T := { t with used := t.used ++ [m] }
 def T.resumed (t : T) : T :=
   { t with tPaused := false, canSend := true, reading := true, blocked := [] }
 
+/-- one synchronous action; `q` = the tasks that are runnable but have not run yet, in the order
+in which the loop will run them (woken writers keep their timers, a new sender's timer starts
+when it runs - at the same virtual instant) -/
+def T.syncAct (t : T) (q : List Writer) : Act → T × List Writer × List Obs
+  | .send s m =>
+    if t.used.contains m then (t, q, [Obs.invalid])
+    else (t.use m, q ++ [⟨s, m, t.now + t.maxDelay⟩], [])
+  | .pause => (t.pause.1, q, t.pause.2)
+  | .resume =>
+    if !t.tPaused then (t, q, [])
+    else if t.canSend then ({ t with tPaused := false }, q, [])
+    else
+      -- `Event.set()` resolves the futures of all waiters: their wake-ups are queued now
+      (t.resumed, q ++ t.blocked, [Obs.resumeReading])
+
+def T.sync (t : T) (q : List Writer) : List Act → T × List Writer × List Obs
+  | [] => (t, q, [])
+  | a :: as =>
+    ((T.sync (t.syncAct q a).1 (t.syncAct q a).2.1 as).1,
+     (T.sync (t.syncAct q a).1 (t.syncAct q a).2.1 as).2.1,
+     (t.syncAct q a).2.2 ++ (T.sync (t.syncAct q a).1 (t.syncAct q a).2.1 as).2.2)
+
+/-- the senders of this batch that are still waiting when the loop is idle again -/
+def freshBlocked (before after : T) : List Obs :=
+  (after.blocked.filter fun w => !before.used.contains w.msg).map fun w => Obs.blocked w.sender w.msg
+
 def step (t : T) : Event → T × List Obs
   | .send s m flags =>
     if t.used.contains m then (t, [Obs.invalid])
@@ -180,6 +223,12 @@ def step (t : T) : Event → T × List Obs
       -- asyncio `close()` with unsent data: closing now, `connection_lost` once it has drained
       ({ t with closing := true }, [])
     else t.connectionLost
+  | .batch acts flags =>
+    -- the runnable tasks run in queue order; each one finds `_can_send` set (writes, returns)
+    -- or clear (waits: a new sender for the first time, a woken writer again - `T.wakeAll`)
+    (((t.sync [] acts).1.wakeAll (t.sync [] acts).2.1 flags).1,
+     (t.sync [] acts).2.2 ++ ((t.sync [] acts).1.wakeAll (t.sync [] acts).2.1 flags).2 ++
+       freshBlocked t ((t.sync [] acts).1.wakeAll (t.sync [] acts).2.1 flags).1)
 
 def run (t : T) : List Event → T × List (List Obs)
   | [] => (t, [])
